@@ -265,12 +265,16 @@ impl<E: FromServerFnError> ClientRes<E> for LoopRes {
         })
     }
     async fn try_into_bytes(self) -> Result<Bytes, E> {
-        Ok(Bytes::from(self.0.body()))
+        Ok(framed(&self.0.body(), FRAME.with(|f| f.get()).1))
     }
     fn try_into_stream(
         self,
     ) -> Result<impl Stream<Item = Result<Bytes, Bytes>> + Send + Sync + 'static, E> {
-        Ok(stream::iter(self.0.chunks))
+        let off = FRAME.with(|f| f.get()).1;
+        Ok(stream::iter(self.0.chunks.into_iter().map(move |c| match c {
+            Ok(b) => Ok(framed(&b, off)),
+            Err(b) => Err(framed(&b, off)),
+        })))
     }
     fn status(&self) -> u16 {
         self.0.status
@@ -337,7 +341,22 @@ impl Edit {
     }
 }
 
+/// The bytes as a framed transport hands them over: a `Bytes::slice` view that starts `off`
+/// bytes after a 16-aligned address inside a larger receive buffer (header before, slack
+/// after). What the view contains is exactly `data`.
+pub fn framed(data: &[u8], off: usize) -> Bytes {
+    let mut buf = vec![0xA5u8; data.len() + off + 48];
+    let base = buf.as_ptr() as usize;
+    let start = (16 - base % 16) % 16 + off;
+    buf[start..start + data.len()].copy_from_slice(data);
+    let whole = Bytes::from(buf);
+    debug_assert_eq!(whole.as_ptr() as usize, base);
+    whole.slice(start..start + data.len())
+}
+
 thread_local! {
+    /// header lengths (0..=9) of the frames carrying the request and the response body
+    pub static FRAME: std::cell::Cell<(usize, usize)> = std::cell::Cell::new((0, 0));
     pub static FAULTS: RefCell<Faults> = RefCell::new(Faults::default());
     /// what the server actually received / sent last (for the glue observations)
     pub static LAST_REQUEST: RefCell<Option<(String, String, Vec<(String, Vec<u8>)>, Vec<u8>)>> = RefCell::new(None);
@@ -384,7 +403,7 @@ where
             .uri(&uri)
             .header(http::header::CONTENT_TYPE, &req.content_type)
             .header(http::header::ACCEPT, &req.accept)
-            .body(Bytes::from(body.clone()));
+            .body(framed(&body, FRAME.with(|f| f.get()).0));
         let request = match built {
             Ok(r) => r,
             Err(e) => {
